@@ -269,7 +269,7 @@ def size(v):
         if k == 'ite':
             return ite(v[1], size(v[2]), size(v[3]))
         if k == 'vpsum':
-            return size(v[1])
+            return sub(v[3], v[2])
     return ('size', v)
 
 
